@@ -157,14 +157,16 @@ fn ki8_small_entry_points() {
     core::mem::forget(state);
 }
 
-/// inflateSync: scans for 00 00 FF FF, consumes up to and including the marker, never beyond the input
+/// inflateSync: scans the bytes still in the bit register and then the input for 00 00 FF FF, consumes up to and
+/// including the marker, never beyond the input; Z_BUF_ERROR only when there is nothing at all to scan
+/// (no input and fewer than 8 bits in the register).
 #[kani::proof]
 #[kani::unwind(10)]
 #[kani::stub(core::fmt::write, stub_fmt_write)]
 #[kani::stub(core::panicking::panic_nounwind, stub_pn)]
 #[kani::stub(core::panicking::panic_nounwind_fmt, stub_pnf)]
 fn ki8_sync() {
-    const NI: usize = 7;
+    const NI: usize = 6;
     let mut input: [u8; NI] = kani::any();
     let n_in: u32 = kani::any();
     kani::assume(n_in as usize <= NI);
@@ -174,6 +176,11 @@ fn ki8_sync() {
     let mut state = typed_state(&mut win, wrap, Mode::Len);
     let hdr_seen: bool = kani::any();
     state.gzip_flags = if hdr_seen { 0 } else { -1 };
+    // the bit register: empty, a few stray bits, or exactly one whole byte
+    let nb: u8 = kani::any();
+    kani::assume(nb == 0 || nb == 5 || nb == 8);
+    let rv: u8 = kani::any();
+    state.bit_reader.prime(nb, rv as u64);
     let mut strm = typed_stream(unsafe { &mut *(&mut state as *mut State) });
     strm.next_in = input.as_mut_ptr();
     strm.avail_in = n_in;
@@ -184,28 +191,38 @@ fn ki8_sync() {
     let used = (n_in - strm.avail_in) as usize;
     assert!(strm.avail_in <= n_in && strm.next_in as usize == input.as_ptr() as usize + used);
     assert!(strm.total_in == 100 + used as crate::c_api::z_size);
-    // reference scan
-    let mut pos = NI + 1;
+    // reference scan over: [register byte, if a whole one is held] ++ input
+    let pre = if nb == 8 { 1 } else { 0 };
+    let mut c = [0u8; NI + 1];
     let mut i = 0;
-    while i + 4 <= NI {
-        if pos > NI && i + 4 <= n_in as usize && input[i] == 0 && input[i + 1] == 0 && input[i + 2] == 0xff && input[i + 3] == 0xff {
+    while i < NI + 1 {
+        c[i] = if i < pre { rv } else if i - pre < NI { input[i - pre] } else { 0 };
+        i += 1;
+    }
+    let total = pre + n_in as usize;
+    let mut pos = NI + 2;
+    let mut i = 0;
+    while i + 4 <= NI + 1 {
+        if pos > NI + 1 && i + 4 <= total && c[i] == 0 && c[i + 1] == 0 && c[i + 2] == 0xff && c[i + 3] == 0xff {
             pos = i;
         }
         i += 1;
     }
-    if n_in == 0 {
+    if n_in == 0 && nb < 8 {
         assert!(rc == ReturnCode::BufError);
-    } else if pos <= NI {
-        assert!(rc == ReturnCode::Ok && used == pos + 4);
+    } else if pos <= NI + 1 {
+        assert!(rc == ReturnCode::Ok && used == pos + 4 - pre);
         assert!(matches!(strm.state.mode, Mode::Type));
         assert!(strm.total_out == 50);
         // no header seen yet => continue as raw; otherwise checking is switched off
         assert!(strm.state.wrap == if hdr_seen { wrap & !4 } else { 0 });
     } else {
+        // there was something to scan but no marker: data error, searching state kept for the next call
         assert!(rc == ReturnCode::DataError && used == n_in as usize && matches!(strm.state.mode, Mode::Sync));
     }
-    kani::cover!(rc == ReturnCode::Ok && used == 7);
-    kani::cover!(rc == ReturnCode::DataError && n_in == 7);
+    kani::cover!(rc == ReturnCode::Ok && used == 6);
+    kani::cover!(rc == ReturnCode::DataError && n_in == 0 && nb == 8, "only the register byte to scan");
+    kani::cover!(rc == ReturnCode::Ok && nb == 8 && used == 3, "marker starts in the register");
     core::mem::forget(strm);
     core::mem::forget(state);
 }
